@@ -60,9 +60,12 @@ PROPS = {
                 "every / a random offset (as a block and as a single nextField call), over-long and overflowing varints "
                 "for every prefix width, mutated blocks and byte soup; non-trivial = at least one non-empty byte argument; "
                 "distinct by case line",
-        "explanation": "Theorem statements in coq/Props/C03_statements.v (phase 2 proves them in Props/C03.v) about the Gallina "
+        "explanation": "Theorems in coq/Props/C03.v (proofs in coq/Proofs/Hpack*.v) about the Gallina "
                        "model coq/Impl/Hpack.v of hpack.go / headerField.go and of the header-block loop of "
-                       "serverConn.handleHeaderFrame; specification coq/Spec/Rfc7541.v. Model, implementation (through "
+                       "serverConn.handleHeaderFrame; specification coq/Spec/Rfc7541.v: C03_dec_refines_spec (one block = "
+                       "spec_decode_block: accept/reject, fields, table), C03_history_refines_spec (a connection), "
+                       "C03_split_invariance (HEADERS + CONTINUATION cut anywhere), C03_spec_self_consistent, no panic / "
+                       "progress / output bound. Model, implementation (through "
                        "verif_export.go: VerifHandleHeaderFrame drives the real nextField with the server's loop), extracted "
                        "spec_decode_block and x/net's hpack.Decoder run on the same case lines.",
         "assumptions": [
@@ -79,8 +82,9 @@ PROPS = {
                 "fields with names and values from static entries, repeats of earlier fields, fresh, empty, raw or Huffman "
                 "form ending in 0x00, 100-300 bytes, binary; store and sensitive flags), appendInt for every prefix width "
                 "at the boundary values, appendString; non-trivial = has a field or is a primitive call; distinct by case line",
-        "explanation": "Theorem statements in coq/Props/C04_statements.v about the model of AppendHeader / SetMaxTableSize / "
-                       "appendInt / appendString / search in coq/Impl/Hpack.v. Exact emitted bytes and encoder table after "
+        "explanation": "Theorems in coq/Props/C04.v (proofs in coq/Proofs/HpackEnc*.v) about the model of AppendHeader / "
+                       "SetMaxTableSize / appendInt / appendString / search in coq/Impl/Hpack.v: C04_encoder_in_sync is the "
+                       "induction over all connection histories against the decoder of coq/Spec/Rfc7541.v. Exact emitted bytes and encoder table after "
                        "every block compared model vs implementation; the oracle decodes the blocks with the extracted "
                        "spec_decode_block and checks every clause of C04 (same fields in order, decoder table = encoder "
                        "table, size <= peer's limit, required size updates, sensitive => never-indexed literal); x/net's "
